@@ -395,11 +395,14 @@ def run(ctx):
             bursts.append(("sessions", ["--max-sessions", str(mx)], 12, delay, mx))
             bursts.append(("receivers", ["--max-receivers-per-sender", str(mx)], 8, delay, mx))
         bursts.append(("conns", ["--max-ws-connections", "2", "--max-receivers-per-sender", "0"], 8, delay, 2))
+        # receivers refused after the upgrade must give back exactly the slot they took
+        for k, r in ([(4, 1), (3, 2)] if not thorough else [(4, 1), (3, 2), (5, 1), (6, 3)]):
+            bursts.append(("slots", ["--max-ws-connections", str(k), "--max-receivers-per-sender", str(r)], 6, delay, k))
     bursts.append(("sessions", ["--max-sessions", "0"], 12, 0, 12))
     bursts.append(("receivers", ["--max-receivers-per-sender", "0", "--max-ws-connections", "0"], 8, 0, 8))
     blines = []
     for kind, fl, n, delay, mx in bursts:
-        blines.append("burst " + json.dumps({"flags": NOLIM + fl, "kind": kind, "n": n, "delay_ms": delay, "rounds": 2}).encode().hex())
+        blines.append("burst " + json.dumps({"flags": NOLIM + fl, "kind": kind, "n": n, "delay_ms": delay, "rounds": 2, "extra": mx + 3}).encode().hex())
     rate_specs = [(60, 3), (600, 2)] if not thorough else [(60, 3), (600, 2), (120, 5), (6000, 1)]
     for permin, burst in rate_specs:
         blines.append("burst " + json.dumps({"flags": ["--session-creates-per-min", str(permin), "--session-creates-burst", str(burst), "--max-sessions", "0"],
@@ -427,7 +430,7 @@ def run(ctx):
                 ctx.violation(f"C14:{kind}-limit-exceeded-concurrently", f"{o['admitted']} {kind} admitted at once with {' '.join(fl)} ({n} concurrent arrivals, hook delay {delay} ms)", rep)
             if zero and o["admitted"] < n:
                 ctx.violation("C14:zero-limit-refuses", f"only {o['admitted']} of {n} {kind} admitted with {' '.join(fl)}", rep)
-            if not zero and o["admitted"] < min(mx, n):
+            if not zero and kind != "slots" and o["admitted"] < min(mx, n):
                 ctx.violation(f"C14:{kind}-refused-below-limit", f"only {o['admitted']} {kind} admitted with {' '.join(fl)} and {n} arrivals", rep)
             if o.get("duplicate_code"):
                 ctx.violation("C14:duplicate-join-code", f"two live sessions share join code {o['duplicate_code']}", rep)
@@ -451,7 +454,7 @@ def run(ctx):
                 "tokenBucket / connLimiter: rates 1-50/s, bursts 0-10, gaps 0-3000 ms; limits 0-3. "
                 "thruserv histories: max-sessions 0-3 x max-receivers 0-2 x max-ws-connections {0,2,3,5} x max-message-bytes {0,200,1000} x session-timeout {0, 1.5 s, 10 min}; events: create (with valid/invalid/excessive max_receivers), "
                 "join as sender/receiver/other role with live, unknown, missing codes and missing peer ids, duplicate peer ids, disconnects, host leave, waiting across expiry, messages at limit-1/limit/limit+1/70 kB. "
-                "bursts: 8-12 concurrent arrivals x limits x hook delays between limit test and action; per-IP create bucket. non-trivial = histories with at least one admitted peer / bursts that ran",
+                "bursts: 8-12 concurrent arrivals x limits x hook delays between limit test and action; receivers racing for the receiver limit followed by further hosts, open sockets counted against --max-ws-connections; per-IP create bucket. non-trivial = histories with at least one admitted peer / bursts that ran",
         "samples": [scases[3], mcases[0], mcases[-1]],
     })
     ctx.assumptions += ["session ids (128 random bits) never repeat; the join-code generator eventually yields an unregistered code",
